@@ -28,10 +28,17 @@
 //!       every file a command removed, captured at the moment of its removal — is scanned for the needles and for JSON
 //!       field names; key files must never contain the master key's secret strings; all four non-key file types must have
 //!       been seen.  -> `ok` | `oracle-fail:plaintext-in-<type>-after-<cmd>` | …
+//!       `hist` (command `copy`, and the end of every 2nd history) and every `scan` also COPY the snapshots into a fresh repository with
+//!       ANOTHER master key and (mostly) the source's chunker parameters — fixed-size chunker (odd `hist` seeds) or the same Rabin
+//!       polynomial —, then examine the destination with its own key: storage scan, every blob decodes with the destination's key and
+//!       not with the source's, every file reads back, `check --read-data` clean (`copy_and_verify`).
 //!  * `sites`               the `write_bytes` call sites of the CURRENT source (tools/c04_write_sites.py on <repo>/crates/core/src)
 //!       vs the model's table `Model/WriteSites.lean` (theorem `every_non_key_write_is_encrypted`) -> `ok <lines joined by ;>`
 //!  * `tamper <seed>`       oracle only: every stored non-key file × {bit flips at first/last/middle/random positions,
 //!       truncation, extension}: the affected read fails or returns the original content, never other content.
+//!  * `tamper front <seed>` oracle only: pack files extended at the FRONT (junk, copy of the first blob, equal-length distance, whole
+//!       pack) in a repository with equal-length blobs, then `check`, `to_indexed_checked`, `repair_index` and a file-by-file read:
+//!       every read fails or returns the original content (see `exec_tamper_front`).
 //!  * `swap index|pack|key <seed>` exchange the stored bytes of two files of that type, then read everything: every read fails or
 //!       returns what it returned before -> `ok`;  `swap packtwin <seed>`: two data packs with identical layout exchanged -> the read
 //!       returns the OTHER file's content (`oracle-fail:substitution-undetected`, known finding: blob ids are not verified on read)
